@@ -682,6 +682,78 @@ func extractMuxFacts(repo, root string) error {
 		f.add("transportConnectClosesUnlessHandedOut", false, "(*connGroup).connect not found")
 	}
 
+	// ---- the event hooks sit inside the critical sections they name (the recorded order on one lock is the lock order)
+	f.hookFacts(conn, batch, tr)
+
+	// ---- a promise is paired with its request: sendRequest returns the very channel it puts into the connRequest,
+	// and run resolves/rejects the promise of the request it has just exchanged
+	if fd := findFunc(tr, "connPool", "sendRequest"); fd != nil {
+		made, sent, returned := "", false, false
+		ast.Inspect(fd.Body, func(n ast.Node) bool {
+			switch x := n.(type) {
+			case *ast.AssignStmt:
+				if len(x.Lhs) == 1 && len(x.Rhs) == 1 {
+					if c, ok := x.Rhs[0].(*ast.CallExpr); ok && selPath(c.Fun) == "make" && len(c.Args) >= 1 && src(f.fset, c.Args[0]) == "async" {
+						made = src(f.fset, x.Lhs[0])
+					}
+				}
+			case *ast.SendStmt:
+				if cl, ok := x.Value.(*ast.CompositeLit); ok && src(f.fset, cl.Type) == "connRequest" {
+					for _, el := range cl.Elts {
+						if kv, ok := el.(*ast.KeyValueExpr); ok && src(f.fset, kv.Key) == "res" && src(f.fset, kv.Value) == made && made != "" {
+							sent = true
+						}
+					}
+				}
+			case *ast.ReturnStmt:
+				if len(x.Results) == 1 && src(f.fset, x.Results[0]) == made && made != "" {
+					returned = true
+				}
+			}
+			return true
+		})
+		f.add("promisePairedWithRequest", sent && returned, fmt.Sprintf("sendRequest: promise %q made, sent inside the connRequest (%v) and returned (%v)", made, sent, returned))
+	} else {
+		f.add("promisePairedWithRequest", false, "(*connPool).sendRequest not found")
+	}
+	if fd := findFunc(tr, "conn", "run"); fd != nil {
+		ok := false
+		ast.Inspect(fd.Body, func(n ast.Node) bool {
+			rs, isR := n.(*ast.RangeStmt)
+			if !isR || rs.Key == nil {
+				return true
+			}
+			v := src(f.fset, rs.Key)
+			body := src(f.fset, rs.Body)
+			if strings.Contains(body, "roundTrip("+v+".ctx, ") && strings.Contains(body, v+".req)") &&
+				strings.Contains(body, v+".res.resolve(") && strings.Contains(body, v+".res.reject(") {
+				ok = true
+			}
+			return true
+		})
+		f.add("runAnswersItsOwnRequest", ok, "(*conn).run: one loop variable carries ctx, req and res; roundTrip(its req) → its res.resolve / its res.reject")
+	} else {
+		f.add("runAnswersItsOwnRequest", false, "(*conn).run not found")
+	}
+
+	// ---- waitResponse gives up alone only when it IS alone: the ErrNoProgress branch is guarded by concurrency() == 1
+	if fd := findFunc(conn, "Conn", "waitResponse"); fd != nil {
+		ok := false
+		ast.Inspect(fd.Body, func(n ast.Node) bool {
+			is, isIf := n.(*ast.IfStmt)
+			if isIf && strings.Contains(src(f.fset, is.Body), "ErrNoProgress") {
+				c := src(f.fset, is.Cond)
+				if c == "c.concurrency() == 1" || (strings.HasSuffix(c, ".concurrency() == 1") && !strings.Contains(c, "&&") && !strings.Contains(c, "||")) {
+					ok = true
+				}
+			}
+			return true
+		})
+		f.add("loneOnlyWhenAlone", ok, "waitResponse: io.ErrNoProgress under `if c.concurrency() == 1`")
+	} else {
+		f.add("loneOnlyWhenAlone", false, "(*Conn).waitResponse not found")
+	}
+
 	sort.SliceStable(f.out, func(i, j int) bool { return false })
 	var b strings.Builder
 	b.WriteString("-- GENERATED by /verif/go/extract/muxfacts from /repo (conn.go, batch.go, transport.go, protocol/conn.go,\n-- protocol/roundtrip.go, protocol/saslauthenticate) — do not edit\nnamespace KV.Gen.MuxFacts\n")
@@ -698,4 +770,188 @@ func extractMuxFacts(repo, root string) error {
 		return l
 	}(), ", ") + "]\nend KV.Gen.MuxFacts\n")
 	return os.WriteFile(filepath.Join(root, "lean", "KafkaVerif", "Gen", "MuxFacts.lean"), []byte(b.String()), 0o644)
+}
+
+
+// ---- hook placement -------------------------------------------------------------------------------------------
+
+// pathTo returns the chain of statement lists (outermost first) leading to the statement that contains `target`,
+// together with the index of the containing statement in each list.
+type level struct {
+	list []ast.Stmt
+	idx  int
+}
+
+func stmtLists(n ast.Node) [][]ast.Stmt {
+	var ls [][]ast.Stmt
+	switch x := n.(type) {
+	case *ast.BlockStmt:
+		ls = append(ls, x.List)
+	case *ast.IfStmt:
+		ls = append(ls, x.Body.List)
+		if x.Else != nil {
+			ls = append(ls, stmtLists(x.Else)...)
+		}
+	case *ast.ForStmt:
+		ls = append(ls, x.Body.List)
+	case *ast.RangeStmt:
+		ls = append(ls, x.Body.List)
+	case *ast.SwitchStmt:
+		for _, c := range x.Body.List {
+			ls = append(ls, c.(*ast.CaseClause).Body)
+		}
+	case *ast.TypeSwitchStmt:
+		for _, c := range x.Body.List {
+			ls = append(ls, c.(*ast.CaseClause).Body)
+		}
+	case *ast.SelectStmt:
+		for _, c := range x.Body.List {
+			ls = append(ls, c.(*ast.CommClause).Body)
+		}
+	case *ast.LabeledStmt:
+		ls = append(ls, stmtLists(x.Stmt)...)
+	}
+	return ls
+}
+
+func pathTo(list []ast.Stmt, target ast.Node) []level {
+	for i, st := range list {
+		if st.Pos() <= target.Pos() && target.End() <= st.End() {
+			for _, sub := range stmtLists(st) {
+				if p := pathTo(sub, target); p != nil {
+					return append([]level{{list, i}}, p...)
+				}
+			}
+			return []level{{list, i}}
+		}
+	}
+	return nil
+}
+
+func isCallStmt(st ast.Stmt, suffix string) bool {
+	es, ok := st.(*ast.ExprStmt)
+	if !ok {
+		return false
+	}
+	_, ok = callEnds(es.X, suffix)
+	return ok
+}
+
+func leaves(list []ast.Stmt) bool {
+	if len(list) == 0 {
+		return false
+	}
+	switch x := list[len(list)-1].(type) {
+	case *ast.ReturnStmt:
+		return true
+	case *ast.BranchStmt:
+		return x.Tok == token.BREAK || x.Tok == token.CONTINUE || x.Tok == token.GOTO
+	}
+	return false
+}
+
+// heldAt: walking from the function body down to the hook, is the mutex (`.name.Lock()` / `.name.Unlock()`)
+// held when control reaches the hook?  A nested branch that unlocks must leave (break / return / continue).
+func heldAt(body *ast.BlockStmt, hook ast.Node, name string) bool {
+	held := false
+	for _, lv := range pathTo(body.List, hook) {
+		for i := 0; i < lv.idx; i++ {
+			st := lv.list[i]
+			switch {
+			case isCallStmt(st, "."+name+".Lock"):
+				held = true
+			case isCallStmt(st, "."+name+".Unlock"):
+				held = false
+			default:
+				if _, isDefer := st.(*ast.DeferStmt); isDefer {
+					continue
+				}
+				for _, sub := range stmtLists(st) {
+					unl := false
+					for _, s2 := range sub {
+						if containsCall(s2, "."+name+".Unlock") {
+							unl = true
+						}
+					}
+					if unl && !leaves(sub) {
+						held = false
+					}
+				}
+			}
+		}
+	}
+	return held
+}
+
+func (f *facts) hookFacts(conn, batch, tr *ast.File) {
+	type want struct {
+		file       *ast.File
+		recv, fn   string
+		kind, lock string // lock "" = no lock expected (single goroutine), "@before:<call>" = must precede that call in its block
+	}
+	wants := []want{
+		{conn, "Conn", "doRequest", "C.Write", "wlock"},
+		{conn, "Conn", "waitResponse", "C.Peek", "rlock"},
+		{conn, "Conn", "do", "C.Body", "@before:lock.Unlock"},
+		{batch, "Batch", "close", "C.Body", "@before:lock.Unlock"},
+		{tr, "connGroup", "grabConn", "T.Grab", "mutex"},
+		{tr, "connGroup", "grabConnTo", "T.Grab", "mutex"},
+		{tr, "connGroup", "removeConn", "T.Remove", "mutex"},
+		{tr, "connGroup", "releaseConn", "T.Release", "mutex"},
+		{tr, "connGroup", "closeIdleConns", "T.CloseIdle", "mutex"},
+		{tr, "conn", "run", "T.Recv", ""},
+		{tr, "conn", "run", "T.Done", ""},
+	}
+	var bad []string
+	n := 0
+	for _, w := range wants {
+		fd := findFunc(w.file, w.recv, w.fn)
+		if fd == nil {
+			bad = append(bad, w.fn+": not found")
+			continue
+		}
+		found := 0
+		ast.Inspect(fd.Body, func(x ast.Node) bool {
+			c, ok := x.(*ast.CallExpr)
+			if !ok || selPath(c.Fun) != "verifEvent" || len(c.Args) == 0 || src(f.fset, c.Args[0]) != "\""+w.kind+"\"" {
+				return true
+			}
+			found++
+			n++
+			switch {
+			case w.lock == "":
+			case strings.HasPrefix(w.lock, "@before:"):
+				call := strings.TrimPrefix(w.lock, "@before:")
+				p := pathTo(fd.Body.List, c)
+				ok := false
+				// the unlock follows the hook in the hook's own block or in an enclosing one
+				for li := len(p) - 1; li >= 0 && !ok; li-- {
+					for j := p[li].idx + 1; j < len(p[li].list); j++ {
+						if containsCall(p[li].list[j], call) {
+							ok = true
+						}
+					}
+					for j := 0; j < p[li].idx; j++ {
+						if isCallStmt(p[li].list[j], call) {
+							ok = false
+							li = -1
+							break
+						}
+					}
+				}
+				if !ok {
+					bad = append(bad, w.fn+": "+w.kind+" not before "+call)
+				}
+			default:
+				if !heldAt(fd.Body, c, w.lock) {
+					bad = append(bad, w.fn+": "+w.kind+" outside "+w.lock)
+				}
+			}
+			return true
+		})
+		if found == 0 {
+			bad = append(bad, w.fn+": no "+w.kind+" hook")
+		}
+	}
+	f.add("hooksInsideCriticalSections", len(bad) == 0, fmt.Sprintf("%d hook calls checked; misplaced: %v", n, bad))
 }
